@@ -479,6 +479,45 @@ def family_kinds():
           'struct consumed by value and through an interface bound to its pointer form (value-receiver method), order %d' % order)
     S([Node(FUNC, deps=[(1, 'val')]), Node(BIND, target=2, valrecv=True), Node(WSTRUCT, deps=[(3, 'val')], extra_fields=1), Node(FUNC)], (0, 'val'),
       'interface bound to the pointer form of a struct provider whose method has a value receiver')
+    # a struct provider that skips a field lying between two selected fields, one of which has the skipped field's type
+    files = {
+        'providers.go': ('package {PKG}\n\nimport "example.com/corpus/vrt"\n\ntype DB struct{ ID int }\ntype Logger struct{ ID int }\n'
+                         'type Server struct {\n\tPrimary *DB\n\tReplica *DB `wire:"-"`\n\tLog     Logger\n}\ntype Server2 struct {\n\tPrimary *DB\n\tReplica *DB\n\tLog     Logger\n}\n\n'
+                         'func NewDB() *DB {\n\tid, _ := vrt.Call(1, false)\n\treturn &DB{ID: id}\n}\n\nfunc NewLogger() Logger {\n\tid, _ := vrt.Call(2, false)\n\treturn Logger{ID: id}\n}\n'),
+        'wire.go': ('//go:build wireinject\n// +build wireinject\n\npackage {PKG}\n\nimport "github.com/google/wire"\n\nfunc InjectStar() Server {\n\tpanic(wire.Build(NewDB, NewLogger, wire.Struct(new(Server), "*")))\n}\n\n'
+                    'func InjectNamed() *Server2 {\n\tpanic(wire.Build(NewDB, NewLogger, wire.Struct(new(Server2), "Primary", "Log")))\n}\n'),
+        'zz_driver.go': ('//go:build !wireinject\n// +build !wireinject\n\npackage {PKG}\n\nimport "example.com/corpus/vrt"\n\nfunc VDrive() {\n\tvrt.Reset()\n\ta := InjectStar()\n'
+                         '\tvrt.A("C10,C12", a.Primary != nil && a.Replica == nil && a.Log.ID != 0 && a.Primary.ID != a.Log.ID, "a struct provider sets the selected fields and leaves a prevented field of the same type alone")\n'
+                         '\tvrt.Reset()\n\tb := InjectNamed()\n\tvrt.A("C10,C12", b.Primary != nil && b.Replica == nil && b.Log.ID != 0, "a struct provider sets exactly the named fields although an unnamed field has the type of a named one")\n\tvrt.Cover("skipped-field")\n}\n'),
+    }
+    specs.append(RawSpec(files, 'struct providers that skip a field whose type equals that of a selected field (prevent tag with "*", and an explicit subset)', family='kinds'))
+    specs[-1].extra_props = ['C10', 'C12']
+    # an interface bound to another interface that a provider returns: one construction, shared by both consumers
+    files = {
+        'providers.go': ('package {PKG}\n\nimport "example.com/corpus/vrt"\n\ntype Reader interface{ VID() int }\ntype Store interface {\n\tReader\n\tExtra()\n}\ntype impl struct{ ID int }\n\nfunc (x *impl) VID() int { return x.ID }\nfunc (x *impl) Extra()   {}\n\n'
+                         'type App struct{ ID int }\n\nfunc NewStore() Store {\n\tid, _ := vrt.Call(1, false)\n\treturn &impl{ID: id}\n}\n\nfunc NewApp(r Reader, s Store) App {\n\tid, _ := vrt.Call(0, false, r.VID(), s.VID())\n\treturn App{ID: id}\n}\n'),
+        'wire.go': ('//go:build wireinject\n// +build wireinject\n\npackage {PKG}\n\nimport "github.com/google/wire"\n\nfunc Inject() App {\n\tpanic(wire.Build(NewStore, wire.Bind(new(Reader), new(Store)), NewApp))\n}\n\n'
+                    'func InjectReader() Reader {\n\tpanic(wire.Build(NewStore, wire.Bind(new(Reader), new(Store))))\n}\n'),
+        'zz_driver.go': ('//go:build !wireinject\n// +build !wireinject\n\npackage {PKG}\n\nimport "example.com/corpus/vrt"\n\nfunc VDrive() {\n'
+                         '\tspec := &vrt.Spec{Nodes: []vrt.Node{{Name: "NewApp", Kind: vrt.KFunc, Params: []vrt.Ref{{Node: 1}, {Node: 1}}}, {Name: "NewStore", Kind: vrt.KFunc}}, Result: []vrt.Ref{{Node: 0}}, ArgIDs: make([][]int, 2)}\n'
+                         '\tvrt.Reset()\n\tres := Inject()\n\tvrt.Check(spec, vrt.Outcome{Result: []int{res.ID}, CleanupNil: true})\n'
+                         '\tspec2 := &vrt.Spec{Nodes: []vrt.Node{{Name: "unused", Kind: vrt.KArg}, {Name: "NewStore", Kind: vrt.KFunc}}, Result: []vrt.Ref{{Node: 1}}, ArgIDs: make([][]int, 2)}\n'
+                         '\tvrt.Reset()\n\tr := InjectReader()\n\tvrt.Check(spec2, vrt.Outcome{Result: []int{r.VID()}, CleanupNil: true})\n}\n'),
+    }
+    specs.append(RawSpec(files, 'interface bound to another interface that a provider returns (one construction shared by both consumers; the narrow interface alone)', family='kinds'))
+    specs[-1].extra_props = ['C02', 'C11']
+    # fields of a struct reached through a defined pointer type (type P *S): the parent is P, not *S
+    files = {
+        'providers.go': ('package {PKG}\n\nimport "example.com/corpus/vrt"\n\ntype Greeting struct{ ID int }\ntype Settings struct{ G Greeting }\ntype Primary *Settings\ntype App struct{ ID int }\n\n'
+                         'func NewPrimary() Primary {\n\tid, _ := vrt.Call(1, false)\n\treturn &Settings{G: Greeting{ID: id}}\n}\n\nfunc NewOther() *Settings {\n\tid, _ := vrt.Call(2, false)\n\treturn &Settings{G: Greeting{ID: id}}\n}\n\n'
+                         'func NewApp(g Greeting, pg *Greeting, o *Settings, p Primary) App {\n\talias := 0\n\tif pg == &(*Settings)(p).G {\n\t\talias = 1\n\t}\n\tid, _ := vrt.Call(0, false, g.ID, pg.ID, o.G.ID, alias)\n\treturn App{ID: id}\n}\n'),
+        'wire.go': ('//go:build wireinject\n// +build wireinject\n\npackage {PKG}\n\nimport "github.com/google/wire"\n\nfunc Inject() App {\n\tpanic(wire.Build(NewPrimary, NewOther, wire.FieldsOf(new(Primary), "G"), NewApp))\n}\n'),
+        'zz_driver.go': ('//go:build !wireinject\n// +build !wireinject\n\npackage {PKG}\n\nimport "example.com/corpus/vrt"\n\nfunc VDrive() {\n'
+                         '\tspec := &vrt.Spec{Nodes: []vrt.Node{{Name: "NewApp", Kind: vrt.KFunc, Params: []vrt.Ref{{Node: 1}, {Node: 1}, {Node: 2}, {Node: -1, Const: 1}}}, {Name: "NewPrimary", Kind: vrt.KFunc}, {Name: "NewOther", Kind: vrt.KFunc}}, Result: []vrt.Ref{{Node: 0}}, ArgIDs: make([][]int, 3)}\n'
+                         '\tvrt.Reset()\n\tres := Inject()\n\tvrt.Check(spec, vrt.Outcome{Result: []int{res.ID}, CleanupNil: true})\n}\n'),
+    }
+    specs.append(RawSpec(files, 'fields of a struct reached through a defined pointer type next to a provider of the plain pointer type (value and pointer-to-field)', family='kinds'))
+    specs[-1].extra_props = ['C06', 'C12']
     # an injector that calls nothing and returns one of its arguments through a binding, while other arguments
     # also implement the interface (the bound one must be returned, whatever its position)
     for bound in (0, 1, 2):
@@ -906,6 +945,13 @@ def family_reject():
         (['C08'], 'unused field provider followed by a used one (two wire.FieldsOf items)', 'A', 'wire.Value(S{}), wire.FieldsOf(new(S), "Name"), wire.FieldsOf(new(S), "A")'),
         (['C08'], 'unused value followed by a used one', 'A', 'wire.Value(3), wire.Value(VA)'),
         (['C08'], 'unused binding followed by a used one', 'I', 'NewC, NewJ, wire.Bind(new(J2), new(J)), wire.Bind(new(I), new(*C))'),
+        (['C06', 'C07', 'C20'], 'field provider whose struct has no source, the field consumed by a provider', 'B', 'wire.FieldsOf(new(S), "A"), NewB'),
+        (['C06', 'C07', 'C20'], 'field provider whose struct\'s provider lacks an input, the field consumed by a provider', 'B', 'wire.FieldsOf(new(S), "A"), NewSFromCV, NewB'),
+        (['C06', 'C20'], 'field provider whose struct has no source, the field is the result', 'A', 'wire.FieldsOf(new(S), "A")'),
+        (['C06', 'C12'], 'fields of a defined pointer type SP whose source is only the plain pointer type *S', 'A', 'NewSPtr, wire.FieldsOf(new(SP), "A")'),
+        (['C06'], 'a defined type whose underlying type is provided', 'MyA', 'NewA, NeedsMyA'),
+        (['C09'], 'struct provider "*" with two fields of identical type', 'Twin', 'NewA, wire.Struct(new(Twin), "*")'),
+        (['C09'], 'struct provider naming two fields of identical type', 'Twin', 'NewA, wire.Struct(new(Twin), "X", "Y")'),
         (['C09', 'C20'], 'injector without results', '', 'NewA'),
         (['C09', 'C20'], 'injector without results and with a parameter', '', 'NewB', 'a A'),
         # the same source reached twice / sibling sets, through every way the front end merges sets
@@ -927,7 +973,7 @@ def family_reject():
         (['C07'], 'provider depending on its own result', 'Self', 'NewSelf'),
         (['C07'], 'cycle of three providers behind a value', 'B', 'NewA, NewB, wire.NewSet(NewC3a, NewC3b, NewC3c)'),
     ]
-    extra = 'type J2 interface{ Other() }\ntype J interface{ Other() }\ntype jimpl struct{}\nfunc (jimpl) Other() {}\nfunc NewJ() J { return jimpl{} }\nfunc NewSpelled(lo uint8, hi byte) B { return B{} }\ntype Hooks struct {\n\tBefore func(req string) error\n\tAfter  func(resp string) error\n}\ntype CycA struct{}\ntype CycB struct{}\nfunc NewCycA(b CycB) CycA { return CycA{} }\nfunc NewCycB(a CycA) CycB { return CycB{} }\nfunc NoResult() {}\n'
+    extra = 'type SP *S\nfunc NewSPtr() *S { return &S{} }\ntype MyA A\nfunc NeedsMyA(m MyA) MyA { return m }\nfunc NewSFromCV(c C) S { return S{} }\ntype Twin struct{ X A; Y A }\ntype J2 interface{ Other() }\ntype J interface{ Other() }\ntype jimpl struct{}\nfunc (jimpl) Other() {}\nfunc NewJ() J { return jimpl{} }\nfunc NewSpelled(lo uint8, hi byte) B { return B{} }\ntype Hooks struct {\n\tBefore func(req string) error\n\tAfter  func(resp string) error\n}\ntype CycA struct{}\ntype CycB struct{}\nfunc NewCycA(b CycB) CycA { return CycA{} }\nfunc NewCycB(a CycA) CycB { return CycB{} }\nfunc NoResult() {}\n'
     extra += ('type Fooer interface{ Foo() }\ntype Foo struct{}\nfunc (*Foo) Foo() {}\nfunc NewFoo(f Fooer) *Foo { return &Foo{} }\ntype Other struct{}\nfunc NewOther() Other { return Other{} }\n'
               'type SA struct{ B CycB2 }\ntype CycB2 struct{}\nfunc NewCycB2(a SA) CycB2 { return CycB2{} }\ntype G struct{}\ntype SF struct{ G G }\nfunc NewSF(g G) SF { return SF{} }\n'
               'type Self struct{}\nfunc NewSelf(s Self) Self { return s }\ntype C3a struct{}\ntype C3b struct{}\ntype C3c struct{}\nfunc NewC3a(x C3c) C3a { return C3a{} }\nfunc NewC3b(x C3a) C3b { return C3b{} }\nfunc NewC3c(x C3b) C3c { return C3c{} }\n')
